@@ -566,8 +566,11 @@ def _gen_getsugar(rng, ctx, depth, shape, opts):
     a, fa = gen_ext(rng, ctx, depth - 1, ("array", src), opts)
     r2 = rng.random()
     if r2 < 0.25:
-        item, fi = ("n", "g"), {"g"}
-        if "g" in fa:
+        # a fresh index name; the name encodes the size so that two occurrences in one recipe never give the
+        # same input name two different domains (that would be an ill-typed expression)
+        g = f"g{n}"
+        item, fi = ("n", g), {g}
+        if g in fa:
             return None
     else:
         idx, fi = gen_leaf(rng, ctx, n)
